@@ -146,13 +146,35 @@ def r3_polarity(ctx):
     ge = ctx.cfg(fe)
     rde = ctx.rd(fe)
     recv = fe.node.args.args[0].arg
-    assigns = [d for d in rde.defs_of('action') if isinstance(d.value, ast.Constant) and d.value.value == 'assign']
-    rep.floor('C20.R3', 'assign effects', len(assigns), 1)
-    for d in assigns:
-        # the value stored next to it is self.positive
-        vals = [x for x in rde.defs_of('value') if x.node.stmt is not None and d.node.stmt is not None and x.node.frames == d.node.frames]
-        ok = any(isinstance(x.value, ast.Attribute) and x.value.attr == 'positive' and is_name(x.value.value, recv) for x in vals)
-        rep.ob('C20.R3', ctx.loc(fe, d.node.ast), 'assign effect carries the polarity', ok, 'value = self.positive' if ok else 'the assigned value is not the polarity of the directive', anchor=EFF)
+    # every Effect('assign', key, value) construction: value resolves to self.positive
+    n_assign = 0
+    for n in ge.nodes:
+        if n.dup or n.kind != 'stmt':
+            continue
+        for c in node_calls(n):
+            if not (is_name(c.func, 'Effect') and len(c.args) >= 3):
+                continue
+
+            def consts_of(e):
+                if isinstance(e, ast.Constant):
+                    return [e.value]
+                if isinstance(e, ast.Name):
+                    ds = rde.at(n, e.id)
+                    if ds and all(isinstance(d.value, ast.Constant) for d in ds):
+                        return [d.value.value for d in ds]
+                return [None]
+            if 'assign' not in consts_of(c.args[0]):
+                continue
+            n_assign += 1
+            v = c.args[2]
+            ok = isinstance(v, ast.Attribute) and v.attr == 'positive' and is_name(v.value, recv)
+            if not ok and isinstance(v, ast.Name):
+                ds = [d for d in rde.at(n, v.id)]
+                # the definitions reaching together with action == 'assign': those made in the same block as the 'assign' store
+                ok = any(isinstance(d.value, ast.Attribute) and d.value.attr == 'positive' and is_name(d.value.value, recv) for d in ds) and \
+                    all((isinstance(d.value, ast.Attribute) and d.value.attr == 'positive') or (isinstance(d.value, ast.Constant) and d.value.value is None) or isinstance(d.value, ast.Name) for d in ds if isinstance(d.value, ast.AST))
+            rep.ob('C20.R3', ctx.loc(fe, c), 'assign effect carries the polarity: ' + ctx.src(c), ok, 'value = self.positive' if ok else 'the assigned value is not the polarity of the directive', anchor=EFF)
+    rep.floor('C20.R3', 'assign effects', n_assign, 1)
 
 
 def r4_bare_continuation(ctx):
